@@ -66,6 +66,7 @@ def check(rep: Report, ctx: Ctx) -> None:
     r114(rep, ctx)
     r115(rep, ctx)
     r116(rep, ctx)
+    r122(rep, ctx)
 
 
 def r18(rep: Report, ctx: Ctx) -> None:
@@ -843,6 +844,52 @@ def r116(rep: Report, ctx: Ctx) -> None:
     rep.rule("R1.20", "an observation keeps its counts through construction, "
              "listing and removal (= C04 R4.8)", 8)
     check_table(rep, ctx, "R1.20", MODEL_TABLE, list(MODEL_TABLE))
+    rep.rule("R1.23", "the elementary steps of the walk: an event node "
+             "becomes one connected diagram node, a logic node opens a block "
+             "of its own operator type, a rotated-to path is started only if "
+             "it has not been walked yet", 6)
+    check_table(rep, ctx, "R1.23", TABLE, [
+        "update_puml_graph_with_event_node", "handle_logic_node_cases",
+        "handle_rotate_path"])
     rep.rule("R1.19", "Event -> Node keeps identity, type, loop references "
              "and flags MERGE from the predecessor sets", 4)
     check_table(rep, ctx, "R1.19", TABLE, ["create_node_from_event"])
+
+
+def r122(rep: Report, ctx: Ctx) -> None:
+    """Paths of a loop body that leave the loop for good (kill paths) and
+    break points must be marked on EVERY node of the body - a nested loop
+    node has out-edges in the outer body like any event node.  An unmarked
+    kill path is walked as an ordinary branch: the block waits for a merge
+    that never comes and the separator lands outside its block."""
+    from .effspec import check_table, effects
+    from .walkspec import KILL_TABLE
+    rep.rule("R1.22", "kill paths and break points of a loop body are marked "
+             "from a scan of all its nodes", 5)
+    check_table(rep, ctx, "R1.22", KILL_TABLE, list(KILL_TABLE))
+    fi = ctx.func("find_and_add_loop_kill_paths_to_sub_graph_node")
+    sg = "P:sub_graph_node.sub_graph"
+    effs = effects(ctx, fi, names={
+        "get_all_kill_edges_from_loop_nodes_and_end_points"})
+    scan = [e for e in effs if e.name ==
+            "get_all_kill_edges_from_loop_nodes_and_end_points"]
+
+    def pt(which: str) -> str:
+        return f"{{[each({sg}.nodes) for.. if (P:sub_graph_node.{which} Eq " \
+               f"each({sg}.nodes).uid)].pop()}}"
+    ok = len(scan) == 1 and scan[0].args == (
+        sg, f"{sg}.nodes", pt("end_uid"), pt("start_uid")) and not \
+        scan[0].guards
+    rep.ob("R1.22", "the kill-edge scan covers every node of the body, "
+           "between the body's own dummy end and start", ok, fi=fi,
+           node=scan[0].node if scan else fi.node,
+           detail="; ".join(", ".join(a[:70] for a in e.args) for e in scan)
+           or "<no scan>")
+    marks = [e for e in effs if e.kind == "call"
+             and e.name == "add_loop_kill_paths_for_nodes"]
+    ok = len(marks) == 1 and marks[0].args[1:] == (sg,) and \
+        marks[0].args[0].startswith("get_node_to_node_map_from_edges(")
+    rep.ob("R1.22", "and its result marks the nodes of that same body", ok,
+           fi=fi, node=marks[0].node if marks else fi.node,
+           detail="; ".join(", ".join(a[:70] for a in e.args)
+                            for e in marks) or "<no marking call>")
